@@ -7,6 +7,7 @@
 -/
 import Comet.Hybrid
 import Comet.Vector.Flat
+import CometProofs.Flat
 namespace Comet.Hybrid
 
 variable {V S : Type}
@@ -167,5 +168,28 @@ theorem absFlat_visible (s : Flat.State V) (j : Id) :
     · subst hp; simp [hm]
     · have hb : (p.1 == j) = false := by simpa using hp
       simp [hb]
+
+/-- one step of the visibility model on a flat-index operation -/
+def vecStep (vpre : V → Except Err V) (x : VecIdx V) : Flat.Op V → VecIdx V
+  | .add id v => (x.add vpre id v).1
+  | .remove id => (x.remove id).1
+  | .flush => x.flush
+
+theorem absFlat_step (m : Metric V S) (s : Flat.State V) (op : Flat.Op V) :
+    absFlat (Flat.step m s op).1 = vecStep (flatVpre m s.dim) (absFlat s) op := by
+  cases op with
+  | add id v => exact (absFlat_add m s id v).1
+  | remove id => exact (absFlat_remove m s id).1
+  | flush => exact absFlat_flush m s
+
+/-- **refinement, every history**: the abstraction of the flat model after any history is the
+    visibility model run on the same history -/
+theorem absFlat_run (m : Metric V S) (s : Flat.State V) (ops : List (Flat.Op V)) :
+    absFlat (Flat.run m s ops) = ops.foldl (vecStep (flatVpre m s.dim)) (absFlat s) := by
+  induction ops generalizing s with
+  | nil => rfl
+  | cons op t ih =>
+    simp only [Flat.run, List.foldl_cons] at ih ⊢
+    rw [ih, Flat.step_dim, absFlat_step]
 
 end Comet.Hybrid
